@@ -19,8 +19,9 @@ MC = {
 }
 TRACE = {
     # tier: list of (cap, keys, n events, number of traces)
-    "quick": [(4, 7, 2000, 3), (16, 24, 3000, 2), (64, 90, 4000, 1)],
-    "thorough": [(2, 4, 4000, 6), (4, 7, 5000, 8), (16, 24, 10000, 6), (64, 90, 10000, 4), (3, 12, 5000, 4)],
+    "quick": [(4, 7, 2000, 3), (16, 24, 3000, 2), (64, 90, 3000, 1), (100, 140, 3000, 2)],
+    "thorough": [(2, 4, 4000, 6), (4, 7, 5000, 8), (16, 24, 10000, 6), (64, 90, 10000, 4), (3, 12, 5000, 4), (128, 180, 10000, 3),
+                 (300, 400, 6000, 2)],
 }
 
 
